@@ -760,6 +760,88 @@ Proof.
 Qed.
 
 (* ------------------------------------------------------------------ *)
+(* decoders accept only (nearly) canonical input                        *)
+(* ------------------------------------------------------------------ *)
+(* the leaf decoder accepts only RFC 6962 encodings: what it returns re-encodes to the bytes it consumed *)
+Lemma entry_canonical bs e rest :
+  bytes_ok bs -> read_timestamped_entry bs = Some (e, rest) ->
+  exists enc, rfc_timestamped_entry (te_ts e) e = Some enc /\ bs = enc ++ rest /\ canonical_entry e.
+Proof.
+  intros Hok H. unfold read_timestamped_entry in H.
+  destruct (take_n 8 bs) as [[tsb r1]|] eqn:E1; [|discriminate].
+  destruct (take_n 2 r1) as [[etb r2]|] eqn:E2; [|discriminate].
+  apply take_n_some in E1 as [-> Hl1]. apply take_n_some in E2 as [-> Hl2].
+  apply bytes_ok_app in Hok as [Hokts Hok1]. apply bytes_ok_app in Hok1 as [Hoket Hok2].
+  assert (Hbe8 : be_encode 8 (be_decode tsb) = tsb) by (rewrite <- Hl1; apply be_encode_decode; exact Hokts).
+  assert (Hbe2 : be_encode 2 (be_decode etb) = etb) by (rewrite <- Hl2; apply be_encode_decode; exact Hoket).
+  assert (Hts : be_decode tsb < two64).
+  { pose proof (be_decode_bound tsb Hokts) as Hb. rewrite Hl1 in Hb. exact Hb. }
+  destruct (N.eqb_spec (be_decode etb) 0) as [T0|T0].
+  - destruct (read_var_bytes r2 3) as [c r3| |] eqn:E3; try discriminate.
+    apply read_var_canonical in E3 as [ce [Hce ->]]; [|lia|exact Hok2].
+    apply bytes_ok_app in Hok2 as [_ Hok3].
+    destruct (read_var_bytes r3 2) as [ext rest'| |] eqn:E4; try discriminate.
+    apply read_var_canonical in E4 as [xe [Hxe ->]]; [|lia|exact Hok3].
+    inversion H; subst; clear H.
+    exists (tsb ++ etb ++ ce ++ xe). split; [|split].
+    + unfold rfc_timestamped_entry, rfc_entry_body. cbn [te_ts te_type te_x509 te_ext].
+      rewrite Hbe8, Hbe2, T0. cbn [N.eqb]. rewrite Hce, Hxe. cbn [opt_app]. now rewrite <- !app_assoc.
+    + now rewrite <- !app_assoc.
+    + unfold canonical_entry. cbn [te_ts te_type te_ikh te_tbs te_x509]. repeat split; auto; lia.
+  - destruct (N.eqb_spec (be_decode etb) 1) as [T1|T1]; [|discriminate].
+    destruct (take_n 32 r2) as [[ikh r3]|] eqn:E3; [|discriminate].
+    apply take_n_some in E3 as [-> Hl3]. apply bytes_ok_app in Hok2 as [_ Hok3].
+    destruct (read_var_bytes r3 3) as [tbs r4| |] eqn:E4; try discriminate.
+    apply read_var_canonical in E4 as [te [Hte ->]]; [|lia|exact Hok3].
+    apply bytes_ok_app in Hok3 as [_ Hok4].
+    destruct (read_var_bytes r4 2) as [ext rest'| |] eqn:E5; try discriminate.
+    apply read_var_canonical in E5 as [xe [Hxe ->]]; [|lia|exact Hok4].
+    inversion H; subst; clear H.
+    exists (tsb ++ etb ++ ikh ++ te ++ xe). split; [|split].
+    + unfold rfc_timestamped_entry, rfc_entry_body. cbn [te_ts te_type te_ikh te_tbs te_ext].
+      rewrite Hbe8, Hbe2, T1. cbn [N.eqb Pos.eqb]. rewrite Hte, Hxe. cbn [opt_app]. now rewrite <- !app_assoc.
+    + now rewrite <- !app_assoc.
+    + unfold canonical_entry. cbn [te_ts te_type te_ikh te_tbs te_x509]. repeat split; auto; lia.
+Qed.
+
+Lemma leaf_canonical bs l rest :
+  bytes_ok bs -> read_merkle_tree_leaf bs = Some (l, rest) ->
+  exists enc, rfc_leaf l = Some enc /\ bs = enc ++ rest /\
+              lf_version l = 0 /\ lf_type l = 0 /\ canonical_entry (lf_entry l).
+Proof.
+  intros Hok H. unfold read_merkle_tree_leaf in H.
+  destruct bs as [|v [|lt r2]]; cbn [read_byte] in H; try discriminate.
+  - destruct (negb (v =? 0)); discriminate.
+  - destruct (N.eqb_spec v 0) as [->|]; [|discriminate]. cbn [negb] in H.
+    destruct (N.eqb_spec lt 0) as [->|]; [|discriminate]. cbn [negb] in H.
+    destruct (read_timestamped_entry r2) as [[e rest']|] eqn:E; [|discriminate].
+    inversion H; subst; clear H.
+    inversion Hok as [|? ? _ Hok1]; subst. inversion Hok1 as [|? ? _ Hok2]; subst.
+    apply entry_canonical in E as [enc [He [-> Hc]]]; [|exact Hok2].
+    exists ([0; 0] ++ enc). unfold rfc_leaf. cbn [lf_entry lf_version lf_type]. rewrite He. cbn [opt_app].
+    split; [reflexivity|]. split; [reflexivity|]. split; [reflexivity|]. split; [reflexivity|exact Hc].
+Qed.
+
+(* what UnmarshalX509ChainArray's list reader accepts: the RFC 6962 chain encoding, except that
+   the list body may end with 1 or 2 stray bytes (tail = [] is exactly rfc_chain) *)
+Lemma cert_list_shape bs l rest :
+  bytes_ok bs -> read_asn1_cert_list bs 3 3 = Some (l, rest) ->
+  exists items tail e, rfc_items 3 l = Some items /\ (length tail < 3)%nat /\
+                       vec_encode 3 (items ++ tail) = Some e /\ bs = e ++ rest.
+Proof.
+  intros Hok H. unfold read_asn1_cert_list in H.
+  destruct (read_var_bytes bs 3) as [lb rest'| |] eqn:E; try discriminate.
+  destruct (cert_list_loop (S (length lb)) lb 3 []) as [l'|] eqn:El; [|discriminate].
+  inversion H; subst; clear H.
+  apply read_var_canonical in E as [e [He ->]]; [|lia|exact Hok].
+  assert (Hlb : bytes_ok lb).
+  { apply bytes_ok_app in Hok as [Hoke _]. apply vec_encode_some in He as [_ ->].
+    now apply bytes_ok_app in Hoke as [_ Hlb]. }
+  apply cert_list_loop_shape in El as [l0 [enc [tail [-> [Hi [-> Ht]]]]]]; [|lia|exact Hlb].
+  exists enc, tail, e. cbn [rev app]. auto.
+Qed.
+
+(* ------------------------------------------------------------------ *)
 (* tie of the RFC 6962 layouts above to an independent encoder          *)
 (* (x/crypto cryptobyte, run by the harness): stream "spec"             *)
 (* ------------------------------------------------------------------ *)
